@@ -115,7 +115,7 @@ func (fl *flipper) restore(off int) error {
 func (fl *flipper) close() { _ = fl.f.Close() }
 
 func TestCheck(t *testing.T) {
-	s := &pbt.Suite{ID: "C14", Level: "exploration",
+	s := &pbt.Suite{ID: "C14", Level: "fault_enumeration",
 		Rule: "three specs (wal, vlog, sst). gen: rapid-drawn record/entry sets, small in the quick tier so that whole files are enumerated (WAL: 1-2 segments of 1-4 typed records, payload 0..24, some 40..70; vlog: 1-2 files of 1-3 entries with internal keys, values 0..24, some 25..60 and 126..131 (varint boundary), arbitrary meta, 0/small/large expiry, AppendEntry or batched AppendEntries; SST: 1..7 sorted internal-key entries, block size 48..4096 so tables have 1..7 blocks, with/without bloom; the thorough tier draws 2-4x larger files). For each built file EVERY bit of every record / data block is flipped (one at a time) when the flippable region is <= the case's limit (label flips:exhaustive), otherwise every bit of the drawn records/blocks (label flips:picked); the 8 most significant bits of a WAL length field are skipped (label flip:length-top8-skipped; they make the decoder allocate 16 MiB..2 GiB) except in one static case of the thorough tier; SST index+footer bytes (evenly spaced, at most IndexBytes) are flipped too with the weaker requirement 'open fails or data identical'. static: fixed small files per spec, all bits. Oracle per flip and read path (wal: Replay, VerifyDir+Replay; vlog: ReadValue, Read+DecodeEntry, Iterate, VerifyDir+same for one bit per byte; sst: reopen from the corrupted file with no block/bloom cache and the index cache entry dropped, Search of every key, forward+reverse iteration): error, or record absent, or data identical to what was written at that position; never different data for an existing record, never an invented record, never a panic outside the SST opening call. Non-trivial = the case flipped bits inside key/value/payload/type/meta bytes (not only length fields, checksums or slack) and at least one such flip was detected (error/absent) rather than read back identical; distinct by case content.",
 		Assumptions: []string{
 			"a single flipped bit per trial; the rest of the directory is intact",
